@@ -71,6 +71,21 @@ def normalized(kind, opts, N):
             target = tot * k / N
             n.append(brentq(lambda s: quad(rho, 0, s, epsabs=1e-13, epsrel=1e-13)[0] - target, 0, 1, xtol=1e-14))
         n.append(1.0)
+    elif kind == "dense_edges":
+        # density = CasADi's own 'smooth_linear' interpolant through (0,m), (e,1), (1-e,1), (1,m) (a trusted CasADi
+        # component); the equidistribution is computed here with scipy
+        import casadi as ca
+        from scipy.integrate import quad
+        from scipy.optimize import brentq
+        m_, e_ = float(opts.get("multiplier", 10)), float(opts.get("edge_frac", 0.1))
+        itp = ca.interpolant("interp", "bspline", [[0.0, e_, 1 - e_, 1.0]], [m_, 1.0, 1.0, m_], {"algorithm": "smooth_linear"})
+        rho = lambda tau: float(itp(tau))
+        cum = lambda s_: quad(rho, 0, s_, epsabs=1e-12, epsrel=1e-12, points=[p_ for p_ in (e_, 1 - e_) if p_ < s_] or None, limit=200)[0]
+        tot = cum(1.0)
+        n = [0.0]
+        for k in range(1, N):
+            n.append(brentq(lambda s_: cum(s_) - tot * k / N, 0, 1, xtol=1e-13))
+        n.append(1.0)
     elif kind == "free":
         n = None
     else:
@@ -193,6 +208,8 @@ class RefPt:
     def integral(self, fn):
         return self.traj.quadrature(fn)
 
+    quad_state = integral
+
 
 class RefTraj:
     """All node / stage values of one stage at one labelled point q."""
@@ -226,7 +243,7 @@ class RefTraj:
         else:
             n = normalized(kind, opts, N)
             self.tc = np.array([self.t0 + self.T * e for e in n])
-            if kind == "density":
+            if kind in ("density", "dense_edges"):
                 # equidistribution is computed numerically on both sides (rockit: cvodes + bisection);
                 # rows are evaluated on the sampled grid, which is compared with the declared one at 1e-6
                 self.tc_declared = self.tc
